@@ -105,6 +105,11 @@ def run(ctx):
     if not m.violated or m.violated == "error":
         ctx.machinery("TLC mutant TM_softexit (sys.exit instead of os._exit) not killed")
     ctx.note(f"TLC Termination/TM: {r.generated} states over all environments x time-outs x both halves; mutant TM_softexit killed by {m.violated}")
+    lg = tlc.run("Termination", "TM_linger.cfg", scratch=ctx.scratch, timeout=600, parse_trace=False)
+    if lg.violated != "WorkerGoneInTime":
+        ctx.machinery(f"TLC Termination/TM_linger: expected the exit ladder not to cover a lingering thread / exit hook of the remote code, got {lg.violated}")
+    ctx.note("TLC Termination/TM_linger: with remote code that left a non-daemon thread or a blocking exit hook behind the ladder does not end the "
+             "worker (WorkerGoneInTime violated) - the listed finding lingering-user-thread-or-exit-hook")
     envs = ["idle", "receive", "busy", "sleep", "swallow", "sigign", "thread", "sending", "cbdropped"]
     base = []
     for env in envs:
